@@ -1,6 +1,6 @@
 import Wee.Proofs.SearchFnsBridge2
 /-!
-# Bridge, stage 4c: the iterative-deepening loop translated from `Searcher::analyze_iterative` (`Wee/Gen/SearchFns.lean`,
+# Bridge, stage 4e: the iterative-deepening loop translated from `Searcher::analyze_iterative` (`Wee/Gen/SearchFns.lean`,
 `Searcher.analyze_iterative.iteration` / `.loop`) REFINES the model's `boundaryPoll` / `iterStep` / `iterLoop`
 (`Wee/Model/Search.lean`)
 
